@@ -252,6 +252,13 @@ func checkEd(c *vcommon.Case, kind string, pub, msg, sig []byte) {
 			eps = append(eps, entry{"ext_crypto_ed25519_verify_version_1", hv == 1})
 		}
 	}
+	// further ed25519 entry points registered by other tests of this package (c29_core_test.go): judged by the
+	// same two oracles below; nil in TestVerifC29
+	for _, x := range edExtraEntries {
+		if acc, ok := x.verify(c, pub, msg, sig, w); ok {
+			eps = append(eps, entry{x.name, acc})
+		}
+	}
 	if ref.Accept {
 		c.Count("ed_ref_accept", 1)
 	} else {
